@@ -488,8 +488,19 @@ def gen_isin_unique(tier, rng, n):
     return out
 
 
+JOURNAL_POOL = {"float": ["nan", "1.0", "-0.0", "0.0", "inf"], "fixed": ["a", "a ", "a\x00b", "ab", "\xff", ""], "indexed": ["", "a", "ab", "é", "a "]}
+
+
 def gen_journal(tier, rng, n):
     out = []
+    # one journalled column of each kind, every record present on both sides: cell unchanged / changed (NaN on both sides is unchanged)
+    hand = [("num", "int8", [127, -128, 0], [127, -128, 1]), ("num", "bool", [1, 0, 1], [1, 0, 0]), ("num", "uint32", [2 ** 32 - 1, 0, 5], [2 ** 32 - 1, 0, 5]),
+            ("num", "float64", ["nan", "1.0", "-0.0"], ["nan", "1.0", "0.0"]), ("num", "float32", ["nan", "inf", "1.5"], ["1.0", "inf", "nan"]),
+            ("fixed", "S3", ["a", "a ", "\xff"], ["a", "a ", "\xff"]), ("fixed", "S3", ["a", "a\x00b", ""], ["a", "a", "b"]),
+            ("indexed", "indexed", ["", "é", "ab"], ["", "é", "ab"]), ("indexed", "indexed", ["a", "é", "ab"], ["a ", "e", "ab"])]
+    for k, dt, o, nw in hand:
+        out.append({"op": "x_journal", "kdtype": rng.choice(["int64", "int32", "S2"]), "old_ids": [1, 2, 3], "new_ids": [1, 2, 3], "old_vf": [1.0, 1.0, 1.0],
+                    "jcols": [{"k": k, "dt": dt, "o": o, "n": nw}], "_hand": True})
     for _ in range(n):
         no, nn = rng.randrange(0, 6), rng.randrange(0, 6)
         kd = rng.choice(["int64", "int32", "S2", "uint8"])
@@ -501,20 +512,23 @@ def gen_journal(tier, rng, n):
             kind = rng.choice(["num", "float", "fixed", "indexed"])
             if kind == "num":
                 dt = rng.choice(["bool"] + INT_DTYPES[:7])
-                mk = lambda m: int_vals(rng, m, dt)[:m] if rng.random() < 0.5 else [rng.choice([bounds(dt)[1], 0, 1]) for _ in range(m)]
-                cols.append({"k": "num", "dt": dt, "o": mk(no), "n": mk(nn)})
+                vals = lambda m, dt=dt: [rng.choice([bounds(dt)[1], bounds(dt)[0], 0, 1]) for _ in range(m)]
+                c = {"k": "num", "dt": dt}
             elif kind == "float":
-                dt = rng.choice(FLOAT_DTYPES)
-                mk = lambda m: [rng.choice(["nan", "1.0", "-0.0", "0.0", "inf"]) for _ in range(m)]
-                cols.append({"k": "num", "dt": dt, "o": mk(no), "n": mk(nn)})
+                c = {"k": "num", "dt": rng.choice(FLOAT_DTYPES)}
+                vals = lambda m: [rng.choice(JOURNAL_POOL["float"]) for _ in range(m)]
             elif kind == "fixed":
-                mk = lambda m: [rng.choice(["a", "a ", "a\x00b", "ab", "\xff", ""]) for _ in range(m)]
-                cols.append({"k": "fixed", "dt": "S3", "o": mk(no), "n": mk(nn)})
+                c = {"k": "fixed", "dt": "S3"}
+                vals = lambda m: [rng.choice(JOURNAL_POOL["fixed"]) for _ in range(m)]
             else:
-                mk = lambda m: [rng.choice(["", "a", "ab", "é", "a "]) for _ in range(m)]
-                cols.append({"k": "indexed", "dt": "indexed", "o": mk(no), "n": mk(nn)})
-        for c in cols:
-            c["n"] = c["n"][:len(new_ids)]
+                c = {"k": "indexed", "dt": "indexed"}
+                vals = lambda m: [rng.choice(JOURNAL_POOL["indexed"]) for _ in range(m)]
+            c["o"] = vals(no)
+            fresh = vals(len(new_ids))
+            # a snapshot row of a key the old table holds repeats one of that key's old cells with probability 0.65 (unchanged cell)
+            c["n"] = [c["o"][rng.choice([j for j, x in enumerate(old_ids) if x == i])] if i in old_ids and rng.random() < 0.65 else fresh[t]
+                      for t, i in enumerate(new_ids)]
+            cols.append(c)
         vf = [float(rng.choice([1, 2, 3])) for _ in range(no)]
         out.append({"op": "x_journal", "kdtype": kd, "old_ids": old_ids, "new_ids": new_ids, "old_vf": vf, "jcols": cols})
     return out
@@ -527,6 +541,12 @@ CSV_NUM_TEXT = {"float": ["1.5", "nan", "NaN", "inf", "-inf", "-0.0", "0.0", "1e
 
 def gen_import(tier, rng, n):
     out = []
+    out.append({"op": "x_import", "cols": [{"name": "f0", "kind": "fixed", "strlen": 4, "cells": ["é", "日本", "a", "\xff\xfe", ""]}], "crs": 16, "quote": False, "_hand": True})
+    out.append({"op": "x_import", "cols": [{"name": "f0", "kind": "indexed", "cells": ["a", "b,c", "", "é"]}, {"name": "f1", "kind": "fixed", "strlen": 2, "cells": ["x", "", "yz", "é"]}],
+                "crs": 16, "quote": True, "_hand": True})
+    for dt, big in (("float32", "1e39"), ("float64", "1e400")):
+        out.append({"op": "x_import", "cols": [{"name": "f0", "kind": "float", "dtype": dt, "mode": rng.choice(["strict", "allow_empty", "relaxed"]), "invalid": 0,
+                                                "cells": [big, "-" + big, "1.5", "nan", "5e-324"]}], "crs": rng.choice([4, 1 << 20]), "quote": False, "_hand": True})
     for _ in range(n):
         rows = rng.choice([0, 1, 2, rng.randrange(3, 9)])
         cols = []
@@ -587,6 +607,23 @@ ARITH_OPS = ["add", "sub", "mul", "truediv", "floordiv", "mod", "divmod", "and",
 
 def gen_arith(tier, rng, n):
     out = []
+    fmax = {"float32": "3.4028234663852886e+38", "float64": "1.7976931348623157e+308"}
+    hand = []
+    for dt in FLOAT_DTYPES:
+        big = {"k": "num", "dt": dt, "v": [fmax[dt], "-" + fmax[dt], "1.0", "nan"]}
+        tiny = {"k": "num", "dt": dt, "v": [F_EXTREME[dt][0], F_EXTREME[dt][0], "0.0", "-0.0"]}
+        hand += [("mul", big, big, "field"), ("add", big, big, "ndarray"), ("sub", big, {**big, "v": list(reversed(big["v"]))}, "field"),
+                 ("truediv", big, tiny, "field"), ("mul", big, None, "pyfloat"), ("rtruediv", tiny, None, "pyfloat"),
+                 ("floordiv", big, tiny, "ndarray"), ("mod", big, tiny, "field"), ("divmod", big, tiny, "field"), ("rsub", big, None, "pyfloat")]
+    for dt in ["int8", "uint8", "int32", "uint32", "int64", "bool"]:
+        lo, hi = bounds(dt)
+        a = {"k": "num", "dt": dt, "v": [hi, lo, 1, 0]}
+        z = {"k": "num", "dt": dt, "v": [0, 0, 0, 0]}
+        hand += [("add", a, a, "field"), ("mul", a, a, "ndarray"), ("sub", z, a, "field"), ("rsub", a, None, "pyint"), ("truediv", a, z, "field"),
+                 ("floordiv", a, z, "ndarray"), ("mod", a, z, "field"), ("divmod", a, z, "field"), ("invert", a, a, "field"), ("xor", a, a, "pybool")]
+    for fn, a, b, of in (hand if tier != "quick" else pick(rng, hand, 24)):
+        out.append({"op": "x_arith", "fn": fn, "a": a, "b": b or a, "oform": of, "scalar": "1e308" if of == "pyfloat" and a["dt"] == "float64" else
+                    "1e39" if of == "pyfloat" else 1, "sdt": "int64", "backing": rng.choice(["mem", "h5"]), "_hand": True})
     for _ in range(n):
         m = rng.choice([0, 1, rng.randrange(2, 8)])
         k = rng.choice(["num", "num", "num", "num", "categorical", "timestamp"])
@@ -651,11 +688,11 @@ def gen_ops(tier, rng, n):
     return out
 
 
-FAMILIES = [("spans", gen_spans, 12, 300), ("apply", gen_apply, 40, 1500), ("concat", gen_concat, 8, 200),
+FAMILIES = [("spans", gen_spans, 16, 300), ("apply", gen_apply, 40, 1500), ("concat", gen_concat, 8, 200),
             ("filter_index", gen_filter_index, 16, 500), ("sort", gen_sort, 10, 300), ("map", gen_map, 12, 300),
             ("merge", gen_merge, 16, 600), ("smerge", gen_smerge, 16, 500), ("groupby", gen_groupby, 16, 500),
             ("aggregate", gen_aggregate, 10, 300), ("isin_unique", gen_isin_unique, 12, 300), ("journal", gen_journal, 12, 400),
-            ("import", gen_import, 16, 600), ("export", gen_export, 8, 200), ("arith", gen_arith, 40, 1500), ("date", gen_date, 10, 300), ("ops", gen_ops, 12, 400)]
+            ("import", gen_import, 16, 600), ("export", gen_export, 12, 200), ("arith", gen_arith, 40, 1500), ("date", gen_date, 16, 300), ("ops", gen_ops, 12, 400)]
 
 
 BATCH = {"quick": 10, "thorough": 24, "search": 24}
